@@ -1,15 +1,22 @@
 import IpaVerif.Model.Util
 import IpaVerif.Model.Hybrid
-/-! Line-protocol handlers for property C01 (model side). Import-free. -/
+import IpaVerif.Generated.HybridConsts
+/-! Line-protocol handlers for property C01 (model side). Import-free.
+Widths, bucket count and the aggregation proof-chunk size come from the translator
+(`Generated/HybridConsts.lean`, re-read from query/runner/hybrid.rs, aggregation/mod.rs, dzkp_validator.rs). -/
 namespace IpaVerif.Driver.C01
 open IpaVerif.Util IpaVerif.Hybrid
+open IpaVerif.Generated.Hybrid (bkBits vBits hvBits buckets aggProofChunk targetProofSizeTest)
 
-/-- aggregate_values_proof_chunk(256, 3) with the cfg(test) TARGET_PROOF_SIZE of the harness build. -/
-def aggChunk : Nat := 8
+/-- `aggregate_values_proof_chunk(B, V::BITS)` with the cfg(test) TARGET_PROOF_SIZE of the harness build. -/
+def aggChunk : Nat := aggProofChunk targetProofSizeTest
+
+/-- the instantiation of `Query::execute` (`hybrid_protocol::<_, BA8, BA3, BA32, 3, 256>`). -/
+def prodW : Widths := { bkW := bkBits, vW := vBits, hvW := hvBits, buckets := buckets }
 
 def widthsOf : String → Option Widths
-  | "prod" => some { bkW := 8, vW := 3, hvW := 32, buckets := 256 }
-  | "small" => some { bkW := 8, vW := 3, hvW := 8, buckets := 256 }
+  | "prod" => some prodW
+  | "small" => some { prodW with hvW := 8 }
   | _ => none
 
 def parseRec (s : String) : Option Rec :=
@@ -35,7 +42,14 @@ def parseReq (toks : List String) : Option Req :=
   match toks with
   | ["c01.e2e", _mode, shards, _pad, inst, assign, recs] => do
       let w ← widthsOf inst
-      pure { w := w, shards := ← shards.toNat?, assign := ← parseNatList assign, recs := ← parseRecs recs }
+      let recs ← parseRecs recs
+      -- `rnd`: the fixture's seeded Random distribution (unobservable; the generator sends enough keys that
+      -- no shard stays empty): any assignment gives the same modelled result, round robin is used
+      let assign ← if assign = "rnd" then some (List.range recs.length) else parseNatList assign
+      pure { w := w, shards := ← shards.toNat?, assign := assign, recs := recs }
+  -- `Query::execute`: production instantiation, default padding, malicious contexts
+  | ["c01.query", shards, assign, recs] => do
+      pure { w := prodW, shards := ← shards.toNat?, assign := ← parseNatList assign, recs := ← parseRecs recs }
   | _ => none
 
 def parseRows (s : String) : Option (List Row) :=
@@ -47,8 +61,6 @@ def parseRows (s : String) : Option (List Row) :=
 def showRows (rows : List Row) : String :=
   if rows.isEmpty then "-" else String.intercalate "," (rows.map (fun r => s!"{r.1}:{r.2}"))
 
-def prodW : Widths := { bkW := 8, vW := 3, hvW := 32, buckets := 256 }
-
 def handle (toks : List String) : Option String :=
   match toks with
   | ["c01.agg", _mode, tags, recs] =>
@@ -58,8 +70,8 @@ def handle (toks : List String) : Option String :=
   | ["c01.brk", _mode, hv, rows] =>
     match hv.toNat?, parseRows rows with
     | some hv, some rows =>
-      let w : Widths := { bkW := 8, vW := 3, hvW := hv, buckets := 256 }
-      if rows.isEmpty then some (showNatList (List.replicate 256 0))
+      let w : Widths := { prodW with hvW := hv }
+      if rows.isEmpty then some (showNatList (List.replicate w.buckets 0))
       else some (showNatList (finalize w [shardHistogram w aggChunk rows]))
     | _, _ => some "bad-request"
   | "c01.e2e" :: _ =>
@@ -72,6 +84,14 @@ def handle (toks : List String) : Option String :=
       match runOutcome r.w aggChunk shards with
       | none => some "hang"
       | some h => some (showNatList h)
+  | "c01.query" :: _ =>
+    -- the encrypted reports are first resharded by their unique tag (unobservable here), so the shard a
+    -- report is received on does not determine where it is processed: by `pipeline_eq_spec` the result
+    -- does not depend on the distribution as long as no shard is left without rows (finding F8; the
+    -- generator sends >= 30 match keys to every shard)
+    match parseReq toks with
+    | none => some "bad-request"
+    | some r => some (showNatList (run r.w aggChunk (distribute r.shards r.assign r.recs)))
   | _ => none
 
 /-- spec-side: rows of `aggregate_reports` = for every pseudonym carried by exactly two reports (in
@@ -94,7 +114,7 @@ def oracle (toks : List String) (impl : String) : Option String :=
       let expect := (List.range 256).map (fun b => min (((rows.filter (·.1 == b)).map (·.2)).sum) (2 ^ hv - 1))
       if impl = showNatList expect then some "holds" else some "fails bucket totals differ from the saturated sums"
     | _, _ => some "unknown"
-  | "c01.e2e" :: _ =>
+  | "c01.e2e" :: _ | "c01.query" :: _ =>
     match parseReq toks with
     | none => some "unknown"
     | some r =>
